@@ -34,6 +34,7 @@ type Loc struct {
 	Owner string     // struct type key for field locations
 	Field string     // field name for field locations
 	Local bool       // function-local cell (Alloc)
+	WriteOnce bool   // local cell written once and never by a capturing closure
 }
 
 type Closure struct {
